@@ -495,7 +495,7 @@ def _an_order(c, W, name, assets):
     a = assets[c._cval(name + '.asset_ix', lambda r: r.randint(0, len(assets) - 1), int) % len(assets)]
     q = c.real(name + '.qty', lambda r: float(r.choice([-70, -10, -1, 1, 15, 200])))
     c.assume(q != 0)
-    return Order(c.time(name + '.created'), a, q)
+    return Order(c.time(name + '.created'), a, q, commission=c.real(name + '.commission_field', lambda r: r.choice([0.0, 0.0, 5.0, -5.0])))
 
 
 @harness('SimulatedBroker._execute_order', props=['C05', 'C04', 'C01', 'C02', 'C07'], also=['C09', 'C08'], layer='L2', functions=BR_FUNCS)
@@ -1090,6 +1090,15 @@ def br_init(c):
         c.ob('%s/clock-is-start' % cur, EQ(b.current_dt, t), kind='A')
     r, _ = outcome(lambda: SimulatedBroker(t, None, None, fee_model=object()))
     c.ob('non-fee-model-refused/type-TypeError', r == 'TypeError', props=['C15'])
+    # "unsupported" means: not in settings.SUPPORTED at the time of the request (not at import time)
+    from qstrader import settings as _qs
+    saved = _qs.SUPPORTED['CURRENCIES']
+    _qs.SUPPORTED['CURRENCIES'] = [x for x in saved if x != 'EUR']
+    try:
+        r, _ = outcome(lambda: SimulatedBroker(t, None, None, base_currency='EUR', initial_funds=0.0, fee_model=ZeroFeeModel()))
+    finally:
+        _qs.SUPPORTED['CURRENCIES'] = saved
+    c.ob('currency-removed-from-the-settings-refused/type-ValueError', r == 'ValueError', props=['C15'])
     fm = ZeroFeeModel()
     r, b = outcome(lambda: SimulatedBroker(t, 'EX', 'DH', account_id='acct', fee_model=fm))
     c.ob('collaborators-stored', AND(r == 'ok', b.exchange == 'EX', b.data_handler == 'DH', b.fee_model is fm, b.account_id == 'acct'), props=['C08'])
